@@ -221,7 +221,7 @@ func c4loadKnown() map[string]bool {
 
 func init() {
 	register("C04", "exploration", func(c *Ctx) {
-		c.Rule = "expressions over the leaves {1, 2, 3, \"a\", int, string, >=2, {a:1}, {b:2}, {a:1,b:2}, {a:2}} built with n-ary | (unary * on top-level disjuncts only, never inside a marked disjunct), binary & and parentheses; exhaustive enumeration of a small leaf set to depth 2 / width 2 (quick) and of the full leaf set to depth 2 width 2 plus depth 2 width 3 of the small set (thorough), PRNG expressions of depth 3 beyond; per expression the evaluator is compared with an executable model of the spec rules M0/M1, D0-D2, U0-U2 on: bottom-ness, acceptance of each probe atom/struct by E & p, concreteness (unique default vs ambiguity: ambiguity must not export), and the resolved default value. Non-trivial = distinct expression with a cross product (value set > 1)."
+		c.Rule = "expressions over the leaves {1, 2, 3, \"a\", int, string, >=2, {a:1}, {b:2}, {a:1,b:2}, {a:2}} built with n-ary | (unary * on top-level disjuncts only, never inside a marked disjunct), binary & and parentheses; exhaustive enumeration of a small leaf set to depth 2 / width 2 (quick) and of the full leaf set to depth 2 width 2 plus depth 2 width 3 of the small set (thorough), PRNG expressions of depth 3 beyond; per expression the evaluator is compared with an executable model of the spec rules M0/M1, D0-D2, U0-U2 on: bottom-ness, acceptance of each probe atom/struct by E & p, concreteness (unique default vs ambiguity: ambiguity must not export), and the resolved default value. Struct family: {base, D1, D2[, D3]} (embedded or as & of parenthesised disjunctions) over fields b, c, s whose terms differ in constraints that are still pending when the disjunction is distributed (b: c, b: c + 1, bounds, regular expressions next to a concrete scalar): the evaluator is compared with the union of the combinations, each evaluated without a disjunction (bottom-ness, acceptance of every {b: i, c: j} and string atom, unique default / ambiguity / non-concreteness). Non-trivial = distinct expression with a cross product (value set > 1)."
 		c.Assume = []string{"model = literal implementation of the rewrite rules in doc/ref/spec.md §Default values over finite leaf sets; leaf unification is a 40-line function (atoms, int, string, >=2, open structs of atoms)"}
 		if c.Replay != nil {
 			c.Inconclusive("replay: evaluate the expression with cue eval; cases are enumerated deterministically")
@@ -320,6 +320,56 @@ func init() {
 						}
 					}
 					report(e, rs, enumerated)
+				}
+			})
+		}
+		// struct disjuncts with pending constraints: distribution oracle (c04rel.go)
+		{
+			nrel := c.N(12000, 200000)
+			c.Par(64, func(b int) {
+				r := c.RNG(fmt.Sprintf("rel-%d", b))
+				ctx := cuecontext.New()
+				for i := b; i < nrel; i += 64 {
+					if i%(64*200) == b {
+						ctx = cuecontext.New()
+					}
+					k := c4relGen(r)
+					e := k.expr()
+					var rs []c4result
+					var st map[string]bool
+					func() {
+						defer func() {
+							if rec := recover(); rec != nil {
+								rs = []c4result{{"panic", fmt.Sprint(rec)}}
+							}
+						}()
+						defer mon.WAL("x: " + e)()
+						rs, st = c4relCheck(ctx, k)
+					}()
+					c.Eval(1)
+					c.Count("struct_disjunct_cases", 1)
+					for s := range st {
+						c.Count("struct_outcome:"+s, 1)
+					}
+					if st["crossproduct"] {
+						c.Nontrivial(e)
+					}
+					if len(rs) > 0 && st["eliminated-mark"] && c4defaultOnly(rs) {
+						// the recorded finding in struct guise; value-set disagreement is never attributed to it
+						c.Count("finding:eliminated-mark(struct)", 1)
+						c.Violate("C04|eliminated-mark", "x: "+e+": default-related disagreement, a marked term is eliminated by the other conjuncts", map[string]any{"expr": e})
+						rs = nil
+					}
+					if len(rs) > 0 {
+						var parts []string
+						for _, x := range rs {
+							parts = append(parts, x.class+" "+x.detail)
+						}
+						c.Violate("C04|rel|"+e, fmt.Sprintf("x: %s\n  %s", e, strings.Join(parts, "\n  ")), map[string]any{"expr": e})
+					}
+					if i < 2 {
+						c.Sample(map[string]any{"struct_disjunct_case": e})
+					}
 				}
 			})
 		}
